@@ -82,6 +82,43 @@ func (w *world) restart(j *judge, p string) {
 	w.checkQuiescent(j, n, "restart")
 }
 
+// restartEdit: the space is opened again and a local change lands right after FillDiff has read the head
+// storage (NoLostUpdate across start-up: headSync.Run must have subscribed before)
+func (w *world) restartEdit(j *judge, p, id, c string) {
+	n := w.nodes[p]
+	if n.running {
+		hpanic("restart of %s during its round", p)
+	}
+	n.stop()
+	for t := range w.tasks {
+		if t.F == p {
+			delete(w.tasks, t)
+		}
+	}
+	n.mu.Lock()
+	n.fillHook = func() { w.edit(p, id, c) }
+	n.mu.Unlock()
+	n.start()
+	n.mu.Lock()
+	pending := n.fillHook != nil
+	n.fillHook = nil
+	held := len(n.held)
+	n.mu.Unlock()
+	if pending {
+		hpanic("FillDiff of %s did not read the head storage", p)
+	}
+	if held == 0 {
+		// the change was announced to nobody: it can reach the index only by the next change of the same object
+		v, _ := n.index()
+		e, _ := n.entry(id)
+		if v[id] != elemHead(e.Heads) {
+			j.violate("index/not-following-store/lost/restart-edit", fmt.Sprintf("node %s: the change %s of %s made while the space was being opened is neither in the index nor announced to the head updater", p, c, id))
+			return
+		}
+	}
+	w.checkQuiescent(j, n, "restart-edit")
+}
+
 // ---------------------------------------------------------------------------------- index
 
 // indexApply lets the oldest held notification reach the component (diffSyncer.OnUpdate ->
@@ -157,6 +194,9 @@ func (w *world) fence(j *judge, n *node) bool {
 
 // checkQuiescent evaluates HashPersisted always and IdxFollowsStore when nothing is queued.
 func (w *world) checkQuiescent(j *judge, n *node, what string) {
+	if !n.hasSpace() {
+		return
+	}
 	v, top := n.index()
 	if ph := n.persistedHash(); ph != hex.EncodeToString(top) {
 		j.violate("hash/persisted-hash-stale/"+what,
@@ -245,7 +285,7 @@ func (w *world) checkAdvance(j *judge, n *node, q, want, what string) {
 	if rs.St != "idle" {
 		got = rs.Cur
 	}
-	if rs.St == "apply" || rs.St == "diff" {
+	if rs.St == "apply" || rs.St == "diff" || rs.St == "push" {
 		return // still with q
 	}
 	if got != want && !j.stop {
@@ -262,6 +302,7 @@ func (w *world) roundCheck(j *judge, p string) (res string) {
 	}
 	q := g.conn.target
 	on := q.isOnline()
+	sp := q.hasSpace()
 	vp, _ := n.index()
 	vq, _ := q.index()
 	calls := len(n.calls)
@@ -272,6 +313,8 @@ func (w *world) roundCheck(j *judge, p string) (res string) {
 		defer w.checkAdvance(j, n, q.id, next, "failed-check")
 	}
 	switch {
+	case ng.kind == "push" && ng.conn == g.conn:
+		res = "missing"
 	case ng.kind == "filter":
 		res = "equal"
 		n.pendingDiff = &diffExpect{}
@@ -286,6 +329,12 @@ func (w *world) roundCheck(j *judge, p string) (res string) {
 		}
 		return
 	}
+	if !sp {
+		if res != "missing" {
+			j.violate("round/space-missing-not-pushed", fmt.Sprintf("node %s: peer %s does not hold the space, the type check ended with %q instead of a SpacePush", p, q.id, res))
+		}
+		return
+	}
 	eq := sameView(vp, vq)
 	if eq && res != "equal" {
 		// EqualHashMeansNoTraffic
@@ -294,6 +343,49 @@ func (w *world) roundCheck(j *judge, p string) (res string) {
 	if !eq && res == "equal" {
 		nw, ch, rm := diffViews(vp, vq)
 		j.violate("round/difference-not-noticed", fmt.Sprintf("node %s and %s hold different indexes (new %v changed %v removed %v) but the type check found them equal", p, q.id, trunc(nw), trunc(ch), trunc(rm)))
+	}
+	return
+}
+
+// roundPush releases the SpacePush request of onDiffError. res: "ok" | "fail"
+func (w *world) roundPush(j *judge, p string) (res string) {
+	n := w.nodes[p]
+	g := n.parked
+	if g == nil || g.kind != "push" {
+		hpanic("roundPush: %s is not parked at a SpacePush", p)
+	}
+	q := g.conn.target
+	on := q.isOnline()
+	next := w.nextPeer(p, q.id)
+	nsub := len(n.subs)
+	n.release()
+	ng := w.waitRound(n)
+	if !on {
+		res = "fail"
+		w.checkAdvance(j, n, q.id, next, "failed-push")
+		return
+	}
+	res = "ok"
+	// PushGivesSpace: the peer holds the space now and the exchange starts again on the same connection
+	if !q.hasSpace() {
+		j.violate("round/push-did-not-create-space", fmt.Sprintf("node %s pushed the space to %s, which still does not hold it", p, q.id))
+		return
+	}
+	if !(ng.kind == "req" && ng.conn == g.conn && g.conn.nreq == 0) {
+		j.violate("round/push-not-followed-by-diff", fmt.Sprintf("node %s pushed the space to %s but did not diff with it again in the same round (the trees would wait for the next period)", p, q.id))
+		return
+	}
+	if len(n.subs) != nsub+1 || n.subs[len(n.subs)-1] != q.id {
+		j.drift("node %s: no subscription message to %s after the push", p, q.id)
+	}
+	want := fmt.Sprintf("%s|%s|%s|cred", spaceId, func() string {
+		if w.aclId == "" {
+			return "~no-acl"
+		}
+		return w.aclId
+	}(), settingsId)
+	if got := n.pushReqs[len(n.pushReqs)-1]; got != want && !j.stop {
+		j.drift("node %s pushed %q, expected %q", p, got, want)
 	}
 	return
 }
@@ -503,7 +595,7 @@ func (w *world) treeSync(t task) (effect bool) {
 	}
 	delete(w.tasks, t)
 	p, q := w.nodes[t.F], w.nodes[t.T]
-	if !q.isOnline() || p.tomb(t.I) || q.tomb(t.I) {
+	if !q.isOnline() || !q.hasSpace() || p.tomb(t.I) || q.tomb(t.I) {
 		return false
 	}
 	hp, hq := p.has(t.I), q.has(t.I)
@@ -571,6 +663,8 @@ func (w *world) fullRound(j *judge, p string) (maxReq int) {
 		switch st := n.roundState(); st.St {
 		case "check":
 			w.roundCheck(j, p)
+		case "push":
+			w.roundPush(j, p)
 		case "diff":
 			w.roundDiff(j, p)
 		case "apply":
@@ -626,6 +720,8 @@ func (w *world) settle(j *judge) {
 			switch st := n.roundState(); st.St {
 			case "check":
 				w.roundCheck(j, p)
+			case "push":
+				w.roundPush(j, p)
 			case "diff":
 				w.roundDiff(j, p)
 			case "apply":
@@ -643,6 +739,12 @@ func (w *world) settle(j *judge) {
 	}
 	if len(w.order) == 2 {
 		p, q := w.order[0], w.order[1]
+		if !w.nodes[p].hasSpace() {
+			p, q = q, p
+		}
+		if !w.nodes[p].hasSpace() {
+			return
+		}
 		w.fullRound(j, p)
 		w.runTasks(j)
 		if j.stop {
@@ -653,6 +755,10 @@ func (w *world) settle(j *judge) {
 			return
 		}
 		// the reverse round finds nothing to do for ids that are deleted on neither side
+		if !w.nodes[q].hasSpace() {
+			j.violate("round/space-missing-not-pushed", fmt.Sprintf("after a full round of %s its responsible peer %s still does not hold the space", p, q))
+			return
+		}
 		w.fullRound(j, q)
 		if n := len(w.tasks); n > 0 && !j.stop {
 			for t := range w.tasks {
@@ -667,6 +773,9 @@ func (w *world) settle(j *judge) {
 	}
 	for sweep := 0; sweep < 3 && !j.stop; sweep++ {
 		for _, p := range w.order {
+			if !w.nodes[p].hasSpace() {
+				continue
+			}
 			w.fullRound(j, p)
 			w.runTasks(j)
 		}
